@@ -824,6 +824,9 @@ def rule_graph_rewrite_simulation(ctx, R: str, title: str = None):
       ('chain on the graph output after another insertion',) + S(chain, {2: [('ADD_QUANTIZE', [1])], 5: [('ADD_DEQUANTIZE', [-1]), ('ADD_QUANTIZE', [-1])], 4: [('ADD_DEQUANTIZE', [2])]}),
       ('graph output only; the last operator also reads the tensor',) + S(tail, {1: [('ADD_DEQUANTIZE', [-1])]}),
       ('graph output and the first reader; the last operator keeps the source',) + S(tail, {1: [('ADD_QUANTIZE', [1, -1])], 2: [('ADD_QUANTIZE', [2])]}),
+      ('requantize for the LAST operator, then dequantize for the graph output (two groups, -1 is not the last operator)',) + S(tail, {1: [('ADD_QUANTIZE', [2]), ('ADD_DEQUANTIZE', [-1])]}),
+      ('dequantize for the graph output, then requantize for the LAST operator',) + S(tail, {1: [('ADD_DEQUANTIZE', [-1]), ('ADD_QUANTIZE', [2])]}),
+      ('requantize for the last operator and the first reader, then the graph output',) + S(tail, {1: [('ADD_QUANTIZE', [1, 2]), ('ADD_DEQUANTIZE', [-1])], 2: [('ADD_QUANTIZE', [2])]}),
       ('graph input that is a graph output',) + S(inout, {0: [('ADD_QUANTIZE', [0, -1])]}),
       ('graph input that is a graph output, output not covered',) + S(inout, {0: [('ADD_QUANTIZE', [0])], 1: [('ADD_DEQUANTIZE', [-1])]}),
       ('weight quantized in place next to insertions',) + S(chain, {1: [('QUANTIZE_TENSOR', [0])], 2: [('ADD_QUANTIZE', [1])]}),
